@@ -174,3 +174,20 @@ pub fn permutations(n: usize) -> Vec<Vec<usize>> {
     rec(&mut Vec::new(), &mut vec![false; n], n, &mut out);
     out
 }
+
+/// Run `f` inside a private rayon pool of `t` worker threads (so that `rayon::current_num_threads()` is `t` for the
+/// library code it calls).  Without the `parallel` feature `f` just runs.  The pool's scheduling is the OS's, but a
+/// deterministic library gives the same answer under every schedule; what this makes visible is behaviour that
+/// depends on the NUMBER of threads.
+pub fn with_threads<R: Send>(t: usize, f: impl FnOnce() -> R + Send) -> R {
+    #[cfg(all(feature = "parallel", not(feature = "sim")))]
+    {
+        let pool = rayon::ThreadPoolBuilder::new().num_threads(t).build().expect("MACHINERY: rayon pool");
+        pool.install(f)
+    }
+    #[cfg(not(all(feature = "parallel", not(feature = "sim"))))]
+    {
+        let _ = t;
+        f()
+    }
+}
